@@ -204,6 +204,211 @@ Example C09_example_shift_band :
   /\ rolling_custom_iter 0 [VZ 5] = Panic Underflow.
 Proof. vm_compute. repeat split; eexists; split; reflexivity. Qed.
 
+(* ==== nth / nth_back / last / count / fold / skip / step_by (X21) ======================================
+   Vocabulary added (Model/Iter.v):
+     nthd back k s      Iterator::nth(k) (back = false) / DoubleEndedIterator::nth_back(k) (back = true): std's
+                        default bodies, which TrustIter inherits (advance_by(k).ok()?; next())
+     calls back k s     k+1 calls of next() / next_back() written by hand, no early exit
+     and_next back p    one more call unless the previous one returned None
+     exec c s           one instruction INext | INextBack | INth k | INthBack k;  run_script cs s
+     last_it, count_it, fold_it    Iterator::last / count / fold (rfold) with the state they leave behind
+     stepby, sb_next, sb_size_hint std's StepBy around a state (its next() is nth(step - 1) on the source)   *)
+
+(* (6) the size hint is exact after EVERY script over {next, next_back, nth k, nth_back k}; back instructions
+       need a double-ended state (b = true), front ones only a front-well-formed one *)
+Theorem C09_hint_exact_scripts :
+  forall (b : bool) (s : it) (cs : list instr),
+    (forall c, In c cs -> instr_back c = true -> b = true) -> wfb b s ->
+    size_hint (run_script cs s)
+    = (length (drain (run_script cs s)), Some (length (drain (run_script cs s)))).
+Proof. intros b s cs Hc Hw. apply (hint_exact_script_drain b); assumption. Qed.
+
+Theorem C09_hint_exact_scripts_yields :
+  forall (b : bool) (s : it) (cs : list instr) (l : list val),
+    (forall c, In c cs -> instr_back c = true -> b = true) -> wfb b s -> yields (run_script cs s) l ->
+    size_hint (run_script cs s) = (length l, Some (length l)).
+Proof. intros b s cs l Hc Hw Hy. apply (hint_exact_script b); assumption. Qed.
+
+(* every pipeline of the adaptor grammar under every front script (next / nth k in any order) *)
+Theorem C09_hint_exact_scripts_pipeline :
+  forall (src : source) (gs : list stage) (s : it) (cs : list instr),
+    build src gs = Ok s -> (forall c, In c cs -> instr_back c = false) ->
+    size_hint (run_script cs s)
+    = (length (drain (run_script cs s)), Some (length (drain (run_script cs s)))).
+Proof.
+  intros src gs s cs Hb Hc. apply (hint_exact_script_drain false); [|exact (build_wf src gs s Hb)].
+  intros c Hin Hk. rewrite (Hc c Hin) in Hk. discriminate.
+Qed.
+
+(* the next / next_back scripts of theorems (1)-(3) are the scripts without Nth *)
+Theorem C09_scripts_generalise_consume :
+  forall (cs : list bool) (s : it), run_script (map instr_of_bool cs) s = consume cs s.
+Proof. exact run_script_of_bools. Qed.
+
+(* the abstract sequence after a script: every instruction cuts k+1 items off the front or the back *)
+Theorem C09_script_sequence :
+  forall (b : bool) (cs : list instr) (s : it),
+    (forall c, In c cs -> instr_back c = true -> b = true) -> wfb b s ->
+    elems (run_script cs s) = fold_left (fun l c => cut c l) cs (elems s).
+Proof. intros b cs s Hc Hw. apply (run_script_elems b); assumption. Qed.
+
+(* the raw collector is safe after every such script *)
+Theorem C09_collect_safe_scripts :
+  forall (b : bool) (cs : list instr) (s : it),
+    (forall c, In c cs -> instr_back c = true -> b = true) -> wfb b s ->
+    collect_raw (run_script cs s) = CDone (drain (run_script cs s)).
+Proof. intros b cs s Hc Hw. apply (collect_after_script b); assumption. Qed.
+
+(* (7) nth k = k+1 x next, on EVERY model state (no well-formedness assumed): item and new state.
+       Literally with the early exit of advance_by; and equal to k+1 unconditional calls whenever an item
+       comes back; when None comes back, nth stopped at the first None among those calls. *)
+Theorem C09_nth_is_iterated_next :
+  forall (back : bool) (k : nat) (s : it),
+    nthd back k s = Nat.iter k (and_next back) (nextd back s) /\
+    (forall x s', nthd back k s = (Some x, s') -> calls back k s = (Some x, s')) /\
+    (forall s', nthd back k s = (None, s') -> exists j, j <= k /\ calls back j s = (None, s')).
+Proof.
+  intros back k s. split; [apply nthd_iter|]. split; [apply nthd_some_calls | apply nthd_none_calls].
+Qed.
+
+(* std's own formulation of the default: advance_by(k).ok()?; next() *)
+Theorem C09_nth_is_advance_then_next :
+  forall (back : bool) (k : nat) (s : it),
+    nthd back k s = let '(r, s') := advance_by back k s in if r =? 0 then nextd back s' else (None, s').
+Proof. exact nthd_advance. Qed.
+
+(* on well-formed states the early exit cannot be observed: same item, same remaining sequence, same hint *)
+Theorem C09_nth_early_exit_unobservable :
+  forall (back b : bool) (k : nat) (s : it),
+    (back = true -> b = true) -> wfb b s ->
+    fst (nthd back k s) = fst (calls back k s) /\
+    elems (snd (nthd back k s)) = elems (snd (calls back k s)) /\
+    size_hint (snd (nthd back k s)) = size_hint (snd (calls back k s)) /\
+    wfb b (snd (calls back k s)).
+Proof. intros back b k s Hd Hw. apply nthd_calls_wf; assumption. Qed.
+
+(* closed form: nth k returns the k-th item and leaves the items after it; nth_back k mirrors it *)
+Theorem C09_nth_closed_form :
+  forall (back b : bool) (k : nat) (s : it),
+    (back = true -> b = true) -> wfb b s ->
+    fst (nthd back k s) = nth_error (if back then rev (elems s) else elems s) k /\
+    elems (snd (nthd back k s)) =
+      (if back then firstn (length (elems s) - S k) (elems s) else skipn (S k) (elems s)) /\
+    wfb b (snd (nthd back k s)).
+Proof. intros back b k s Hd Hw. apply nthd_closed; assumption. Qed.
+
+(* (8) full consumption: count() is the announced bound, last() is the last item plain iteration yields
+       (= what next_back() returns on a double-ended state), fold visits exactly the yielded items in
+       order (rfold: reversed); all leave an exhausted state announcing (0, Some 0) *)
+Theorem C09_count_is_hint :
+  forall s, wfb false s ->
+    fst (count_it s) = length (elems s) /\
+    size_hint s = (fst (count_it s), Some (fst (count_it s))) /\
+    size_hint (snd (count_it s)) = (0, Some 0).
+Proof. exact count_it_sound. Qed.
+
+Theorem C09_last_is_last :
+  forall s, wfb false s ->
+    fst (last_it s) = nth_error (rev (elems s)) 0 /\ elems (snd (last_it s)) = [] /\
+    size_hint (snd (last_it s)) = (0, Some 0).
+Proof. exact last_it_sound. Qed.
+
+Theorem C09_last_is_next_back :
+  forall s, wfb true s -> fst (last_it s) = fst (next_back s).
+Proof. exact last_is_next_back. Qed.
+
+Theorem C09_fold_visits_yielded :
+  forall (A : Type) (back b : bool) (f : A -> val -> A) (acc : A) (s : it),
+    (back = true -> b = true) -> wfb b s ->
+    fst (fold_it back f acc s) = fold_left f (if back then rev (elems s) else elems s) acc /\
+    elems (snd (fold_it back f acc s)) = [].
+Proof. intros A back b f acc s Hd Hw. apply (fold_it_sound back b); assumption. Qed.
+
+(* (9) the std adaptors built on nth: Skip::next is nth(n) on the source; StepBy's hint is exact at every
+       point of its consumption and it yields every step-th item of its source *)
+Theorem C09_skip_next_is_nth :
+  forall (b : bool) (s : it) (n : nat), wfb b s ->
+    next (ISkip s n) = let '(o, s') := nth_it n s in (o, ISkip s' 0).
+Proof. exact skip_next_is_nth. Qed.
+
+Theorem C09_step_by_hint_exact :
+  forall (n : nat) (s : it) (t : stepby) (k : nat),
+    wfb false s -> step_by n s = Ok t ->
+    sb_size_hint (sb_consume k t)
+    = (length (sb_drain (sb_consume k t)), Some (length (sb_drain (sb_consume k t)))).
+Proof. exact sb_hint_exact_consume. Qed.
+
+Theorem C09_step_by_yields :
+  forall (n : nat) (s : it) (t : stepby),
+    wfb false s -> step_by n s = Ok t ->
+    sb_drain t = every_nth (length (elems s)) (n - 1) (elems s).
+Proof.
+  intros n s t Hw E. rewrite (sb_drain_elems t (step_by_wf n s t Hw E)).
+  unfold step_by in E. destruct (n =? 0); [discriminate|]. injection E as <-. reflexivity.
+Qed.
+
+(* ---- non-vacuity for (6)-(9) ------------------------------------------------------------------------ *)
+(* vshift(2) on 7 items, nth(2): item 1.0 (index 2 of [NaN, NaN, 1, 2, 3, 4, 5]), then 4 announced = 4 yielded;
+   README of seeded/C09-3: the overriding nth left 5 announced here *)
+Example C09_example_nth_vshift :
+  exists s, vshift 2 None (IList [VZ 1; VZ 2; VZ 3; VZ 4; VZ 5; VZ 6; VZ 7]) = Ok s /\ wfb false s
+    /\ fst (exec (INth 2) s) = Some (VZ 1)
+    /\ size_hint (run_script [INth 2] s) = (4, Some 4)
+    /\ drain (run_script [INth 2] s) = [VZ 2; VZ 3; VZ 4; VZ 5]
+    /\ size_hint (run_script [INth 0; INth 1; INth 0] s) = (3, Some 3)
+    /\ fst (exec (INth 7) s) = None /\ size_hint (run_script [INth 7] s) = (0, Some 0).
+Proof. eexists. vm_compute. repeat split; auto. Qed.
+
+(* the padded vpartition arm (TrustIter over a padded take), mixed next / nth *)
+Example C09_example_nth_vpartition :
+  wfb false (vpartition 4 false [VZ 3; VNull; VZ 1])
+  /\ size_hint (run_script [INth 1; INext] (vpartition 4 false [VZ 3; VNull; VZ 1])) = (2, Some 2)
+  /\ drain (run_script [INth 1; INext] (vpartition 4 false [VZ 3; VNull; VZ 1])) = [VNull; VNull]
+  /\ fst (count_it (vpartition 4 false [VZ 3; VNull; VZ 1])) = 5
+  /\ fst (last_it (vpartition 0 false [VZ 3; VNull; VZ 1])) = Some (VZ 3).
+Proof. vm_compute. repeat split; auto. Qed.
+
+(* all four instructions on a double-ended state built from a shifted series (vshift(-1) of 5 items) *)
+Example C09_example_script_both_ends :
+  exists s, vshift (-1) None (IList [VZ 1; VZ 2; VZ 3; VZ 4; VZ 5]) = Ok s /\ wfb true s
+    /\ fst (exec (INthBack 1) s) = Some (VZ 5)
+    /\ size_hint (run_script [INthBack 1; INth 1; INextBack; INext] s) = (0, Some 0)
+    /\ size_hint (run_script [INthBack 1; INth 0] s) = (2, Some 2)
+    /\ drain (run_script [INthBack 1; INth 0] s) = [VZ 3; VZ 4]
+    /\ fst (last_it s) = fst (next_back s).
+Proof. eexists. vm_compute. repeat split; auto. Qed.
+
+(* the hypothesis is needed: the state the seeded `nth` (len -= n, not n + 1) leaves behind is a TrustIter whose
+   cached length is one too large; it is not well formed, announces 5 and yields 4, and the collector reads an
+   uninitialised slot *)
+Example C09_stale_nth_length_breaks :
+  ~ wfb false (ITrust (IList [VZ 2; VZ 3; VZ 4; VZ 5]) 5)
+  /\ size_hint (ITrust (IList [VZ 2; VZ 3; VZ 4; VZ 5]) 5) = (5, Some 5)
+  /\ length (drain (ITrust (IList [VZ 2; VZ 3; VZ 4; VZ 5]) 5)) = 4
+  /\ collect_raw (ITrust (IList [VZ 2; VZ 3; VZ 4; VZ 5]) 5)
+     = CUninit [Some (VZ 2); Some (VZ 3); Some (VZ 4); Some (VZ 5); None].
+Proof. split; [intros [H _]; discriminate H | vm_compute; auto]. Qed.
+
+(* why (7) keeps the early exit and C09_nth_early_exit_unobservable speaks of observations, not of states: a Zip
+   whose second side is exhausted keeps consuming its first side on every further call, so nth(2) and three
+   hand-written next() calls leave different states (same item, same remaining sequence, same hint) *)
+Example C09_early_exit_visible_in_state :
+  fst (nthd false 2 (IZip (IList [VZ 1; VZ 2; VZ 3]) (IList []))) = fst (calls false 2 (IZip (IList [VZ 1; VZ 2; VZ 3]) (IList [])))
+  /\ snd (nthd false 2 (IZip (IList [VZ 1; VZ 2; VZ 3]) (IList []))) = IZip (IList [VZ 2; VZ 3]) (IList [])
+  /\ snd (calls false 2 (IZip (IList [VZ 1; VZ 2; VZ 3]) (IList []))) = IZip (IList []) (IList []).
+Proof. vm_compute. auto. Qed.
+
+(* StepBy over a shifted series: vshift(1).step_by(2) on 7 items after 2 x next(): 2 announced, 2 yielded
+   (the seeded nth announced 3); step_by(0) panics *)
+Example C09_example_step_by :
+  exists s t, vshift 1 None (IList [VZ 1; VZ 2; VZ 3; VZ 4; VZ 5; VZ 6; VZ 7]) = Ok s /\ step_by 2 s = Ok t
+    /\ sb_size_hint t = (4, Some 4) /\ sb_drain t = [VNull; VZ 2; VZ 4; VZ 6]
+    /\ sb_size_hint (sb_consume 2 t) = (2, Some 2) /\ sb_drain (sb_consume 2 t) = [VZ 4; VZ 6]
+    /\ sb_size_hint (sb_consume 4 t) = (0, Some 0)
+    /\ step_by 0 s = Panic AssertFail
+    /\ next (ISkip s 3) = (Some (VZ 3), ISkip (snd (nth_it 3 s)) 0).
+Proof. eexists. eexists. vm_compute. repeat split; auto. Qed.
+
 Print Assumptions C09_hint_exact_front.
 Print Assumptions C09_hint_exact_both_ends.
 Print Assumptions C09_hint_exact_pipeline.
@@ -224,3 +429,20 @@ Print Assumptions C09_range_count.
 Print Assumptions C09_collect_safe.
 Print Assumptions C09_collect_done_means_exact.
 Print Assumptions C09_collect_safe_pipeline.
+Print Assumptions C09_hint_exact_scripts.
+Print Assumptions C09_hint_exact_scripts_yields.
+Print Assumptions C09_hint_exact_scripts_pipeline.
+Print Assumptions C09_scripts_generalise_consume.
+Print Assumptions C09_script_sequence.
+Print Assumptions C09_collect_safe_scripts.
+Print Assumptions C09_nth_is_iterated_next.
+Print Assumptions C09_nth_is_advance_then_next.
+Print Assumptions C09_nth_early_exit_unobservable.
+Print Assumptions C09_nth_closed_form.
+Print Assumptions C09_count_is_hint.
+Print Assumptions C09_last_is_last.
+Print Assumptions C09_last_is_next_back.
+Print Assumptions C09_fold_visits_yielded.
+Print Assumptions C09_skip_next_is_nth.
+Print Assumptions C09_step_by_hint_exact.
+Print Assumptions C09_step_by_yields.
